@@ -2,6 +2,7 @@
 
 use crate::core::*;
 use crate::gen::*;
+use crate::oracle::items;
 use crate::oracle::*;
 use proptest::prelude::*;
 use similar::algorithms::{self, IdentifyDistinct};
@@ -150,6 +151,27 @@ pub fn check_case(c: &SeqCase, obs: &mut Obs) -> Verdict {
                 }
             }
             Err(p) => return Verdict::Fail(format!("{}: the deadline-taking entry points without a deadline: {}", alg_name(c.alg), p)),
+        }
+    }
+    // other item types: owned strings (non-Copy), and different types on the two sides
+    if c.old.len() + c.new.len() <= 64 {
+        let os: Vec<String> = c.old.iter().map(|x| format!("item {}", x)).collect();
+        let ns: Vec<String> = c.new.iter().map(|x| format!("item {}", x)).collect();
+        let oa: Vec<u64> = c.old.iter().map(|x| *x as u64).collect();
+        let na: Vec<items::Id32> = c.new.iter().map(|x| items::Id32(*x)).collect();
+        match guard(|| {
+            let mut a = Recorder::new();
+            algorithms::diff(alg_of(c.alg), &mut a, &os[..], c.old_r(), &ns[..], c.new_r()).unwrap();
+            let mut b = Recorder::new();
+            algorithms::diff(alg_of(c.alg), &mut b, &oa[..], c.old_r(), &na[..], c.new_r()).unwrap();
+            (a.events, b.events)
+        }) {
+            Ok((a, b)) => {
+                if a != ev || b != ev {
+                    return Verdict::Fail(format!("{}: String items give {:?}, u64 / Id32 items (different types per side) give {:?}, u32 items give {:?}", alg_name(c.alg), a, b, ev));
+                }
+            }
+            Err(p) => return Verdict::Fail(format!("{} over String / mixed item types: {}", alg_name(c.alg), p)),
         }
     }
     // a re-entrant hook: every delete/insert callback runs a small nested diff with the same
